@@ -113,3 +113,45 @@ def _C04():
             "assumptions": ASSUME_REF + ["the C++ encoded_byte_size constant is compared in the C++ peer arm (C03/C05 "
                                          "worlds); raw-codec sizeof/_Padder values are not observed (C08, not applicable)"],
             "real_stub": REAL_STUB_PY}
+
+
+RULE_FS = ("each run draws a schema, assigns its declarations to 2-5 files (never below the file of anything a "
+           "declaration needs), places the files in a simulated directory tree (source dir, sub-directories, one or two "
+           "-I directories), writes #include lines in tape-chosen spellings (bare name found by the search rule, relative "
+           "path, a second spelling through dir/../dir), optionally plants same-basename decoys later in the search "
+           "order, and runs one prophyc invocation from a tape-chosen working directory with relative or absolute "
+           "arguments in a tape-chosen input order; the concatenation compiled as one file is the control; a quarter "
+           "of the runs inject a missing include, an include cycle or EIO on an include read; distinct = distinct "
+           "(schema shape, partition, directories, -I set, cwd, spellings) arrangements; non-trivial = at least 2 files")
+
+
+def _C16():
+    from props import fsim
+    return {"arms": [Arm(fsim, "fs", 2400, 100000, label="S-FS")], "level": "exploration", "rule": RULE_FS,
+            "assumptions": ASSUME_REF + [
+                "include search rule as stated in docs/schema.rst: directory of the including file first, then -I "
+                "directories in command-line order",
+                "two different compiled files never share a basename (outputs are named by basename)",
+                "isar xi:include (which by design downgrades missing/cyclic includes to warnings) is not part of this arm"],
+            "real_stub": REAL_STUB_PY}
+
+
+RULE_DET = ("each run draws a schema of >= 6 definitions, splits it into a common file and up to 3 independent files "
+            "including it, and compiles it with all four generators in 5-9 fresh interpreters (python -m prophyc on a "
+            "real scratch directory) that differ in PYTHONHASHSEED (0,1,2,3,4242 and two drawn values), working "
+            "directory (3) with relative/absolute arguments and command-line order of the independent inputs, then "
+            "in one interpreter: three repeated compiles, every file alone after an unrelated schema defining the same "
+            "names, reversed input order; distinct = distinct (schema shape, hash-seed-changed, cwd, order) "
+            "configurations whose outputs were compared")
+
+
+def _C20():
+    from props import det
+    return {"arms": [Arm(det, "det", 160, 12000, label="S-DET")], "level": "exploration", "rule": RULE_DET,
+            "assumptions": ["PYTHONHASHSEED values are explicit integers (never 'random', which could not be replayed)",
+                            "the sack (libclang) front-end is not exercised: python bindings for clang are not installed "
+                            "in /venv"],
+            "real_stub": {"real": ["python -m prophyc in fresh interpreters on a real scratch directory (all of prophyc, "
+                                   "all four generators)", "prophyc.main in-process for the stale-state arm"],
+                          "stub": ["process environment (hash seed, cwd, argv order) chosen by the tape",
+                                   "file system of the in-process arm (in-memory)"]}}
